@@ -663,6 +663,31 @@ def r14i(ctx, rep, rule="R14i"):
     rep.floor(rule, "optional indices handed to Vector::clone_vector", n, 2)
 
 
+def r14k(ctx, rep, rule="R14k"):
+    facts = ctx["facts"]
+    rep.rule(rule, "the walkers behind equal? compare sub-objects structurally: compare_pair and compare_vector hand every "
+             "component — elements, cars, and the tails a pair walk ends on — to Vm::equal; Vm::eqv (identity and atoms) is "
+             "called by Vm::equal only. A walker that finishes with eqv compares an improper list's vector or string tail "
+             "by identity, so two equal-looking structures are not equal?.")
+    pre = "marwood::vm::compare::<impl marwood::vm::Vm>::"
+    n = 0
+    for nm in ("compare_pair", "compare_vector"):
+        f = need(rep, rule, facts, pre + nm)
+        if f is None:
+            continue
+        n += 1
+        bad = [t for bb, t in f.calls() if callee(t) == pre + "eqv"]
+        uses_equal = any(callee(t) == pre + "equal" for bb, t in f.calls())
+        key = "%s|%s" % (rule, nm)
+        if bad:
+            rep.fail(rule, key, "%s compares a component with eqv instead of equal: a vector or string reached there is compared by "
+                     "identity ((equal? (cons 1 (vector 1 2)) (cons 1 (vector 1 2))) is #f)" % nm, [bad[0]["loc"]])
+        elif not uses_equal:
+            rep.fail(rule, key, "%s no longer compares components through Vm::equal" % nm, [f.span])
+        else:
+            rep.ok(rule, key, "%s compares every component through Vm::equal" % nm, [f.span])
+
+
 def run(ctx, rep):
     r14a(ctx, rep)
     r14b(ctx, rep)
@@ -673,6 +698,7 @@ def run(ctx, rep):
     r14g(ctx, rep)
     r14h(ctx, rep)
     r14i(ctx, rep)
+    r14k(ctx, rep)
     from .C15 import fresh_results
     fresh_results(ctx, rep, "R14j", "Vector", "marwood::vm::vcell::VCell::vector", "vector", "vector-set!", 1, 3)
     from . import C06
